@@ -2,7 +2,7 @@
 import re
 from ..core import pan, terms, tab, ordrules
 from ..core.facts import callee_name
-from ..core.prog import canon, alloc_site, Prog
+from ..core.prog import canon, alloc_site, selection_of, Prog
 from . import panrules
 from .iter_rules import *
 
@@ -90,8 +90,16 @@ def run(chk, ctx):
                 shapes.add((emp[-1], ordrules.ret_shape(pi)))
         chk.require(shapes == {(True, "Ok"), (False, "Err")}, "GUARD", "GUARD:build_output_indices:missing-read-output-is-error", "Err iff some read output is not among the found outputs", "build_output_indices: (missing.is_empty(), result) = %s" % sorted(shapes, key=str))
         pt = tab.predicate_table(P, boi)
-        MS = "Vec::is_empty(Iterator::collect(Iterator::filter_map([T]::iter(read_outputs), closure({closure#1}))))"
+        MS = "Vec::is_empty(MISSING)"
         NXE = "variant(Iterator::next([T]::iter(self.expected_indices)))"
+
+        def _ms(f):
+            # `missing` is a selection of read_outputs (filter_map, or filter + map): which elements it keeps is the closure table below
+            m_ = re.fullmatch(r"Vec::is_empty\((.*)\)", f[0])
+            if m_ and selection_of(m_.group(1), "[T]::iter(read_outputs)") in (["filter_map"], ["filter", "map"]):
+                return (MS, f[1])
+            return f
+        pt = set((frozenset(_ms(f) for f in fs), sh) for fs, sh in pt)
         chk.require(pt == {(frozenset([(MS, False), (NXE, ("None",))]), "Err"), (frozenset([(MS, True), (NXE, ("None",))]), "Ok")}, "TAB", "TAB:build_output_indices:exact-outcome",
                     "after the full scan: Err(MissingOutputs) iff some read output was not found among the driver's outputs", "build_output_indices decides %s" % sorted(pt, key=str))
         # found_outputs gets the signal index exactly when the entry is Output(_)
@@ -116,11 +124,18 @@ def run(chk, ctx):
             want = {("Virtual", ()), ("None", ()), ("Output", (SI,))}
             got = rows
             chk.require(got == want, "GUARD", "GUARD:build_output_indices:found-iff-Output", "found_outputs.push(signal_index) exactly when the entry is Output(_)", "per-iteration (entry kind, found_outputs pushes): %s" % sorted(rows, key=str))
+        # the closure that decides what is "missing": exactly the read outputs that are not among the found ones
+        CT = "[T]::contains(Vec::new(), elem([T]::iter(read_outputs)))"
+        deciders = []
         for cl in P.f.closures_of(boi.name):
             pt = tab.predicate_table(P, cl)
-            if any("contains" in f for fs, sh in pt for f, t in fs):
-                want = {(frozenset([("[T]::contains(Vec::new(), elem([T]::iter(read_outputs)))", False)]), "Some(?)"), (frozenset([("[T]::contains(Vec::new(), elem([T]::iter(read_outputs)))", True)]), "None")}
-                chk.require(pt == want, "TAB", "TAB:build_output_indices:missing-filter", "missing = read_outputs not contained in found_outputs", "missing filter is %s" % sorted(pt, key=str))
+            if any("contains" in f for fs, sh in pt for f, t in fs) or any("contains" in str(sh) for fs, sh in pt):
+                deciders.append(pt)
+        want_fm = {(frozenset([(CT, False)]), "Some(?)"), (frozenset([(CT, True)]), "None")}      # filter_map(|r| if !found.contains(r) { Some(..) } else { None })
+        want_f = [{(frozenset(), "Not(%s)" % CT)},                                                    # filter(|r| !found.contains(r))
+                  {(frozenset([(CT, False)]), "1"), (frozenset([(CT, True)]), "0")}]
+        chk.require(len(deciders) == 1 and (deciders[0] == want_fm or deciders[0] in want_f), "TAB", "TAB:build_output_indices:missing-filter", "missing = read_outputs not contained in found_outputs",
+                    "missing filter is %s" % [sorted(d, key=str) for d in deciders])
     # which identifiers count as output reads (parse-time scoping) and how they are resolved at load time:
     # the missing-output check above is only as good as the read set it is given (shared with C11)
     from . import c11
